@@ -51,55 +51,9 @@ let read_scripts (path : string) : script list =
   done with End_of_file -> close_in ic);
   List.rev !out
 
-(* ---- link engine ------------------------------------------------------------------------- *)
-let perr_text = function
-  | EStart1 x -> Printf.sprintf "start1 %d" (int_of_n x)
-  | EStart2 x -> Printf.sprintf "start2 %d" (int_of_n x)
-  | ELength x -> Printf.sprintf "length %d" (int_of_n x)
-  | EHeaderCrc -> "hcrc" | EBodyCrc -> "bcrc" | ELogicSize -> "logic-size"
-let rerr_text = function RParse e -> perr_text e | REof -> "stdio UnexpectedEof"
 
-let error_mode s = match cfg_str s "mode" "close" with
-  | "close" -> Close | "discard" -> Discard | _ -> failwith "bad mode"
-let read_mode s = match cfg_str s "read" "stream" with
-  | "stream" -> Stream | "datagram" -> Datagram | _ -> failwith "bad read mode"
-
-let run_link_engine (s : script) : string list =
-  let feeds = List.filter_map (function ["feed"; h] -> Some (unhex h) | _ -> None) s.ops in
-  if List.length feeds <> List.length s.ops then failwith "link engine: only feed ops are modelled";
-  let obs = run_link (error_mode s) (read_mode s) (nat_of_int (cfg_int s "frag" 2048)) feeds in
-  let stopped = ref false in
-  let lines = List.map (function
-    | OFrame (h, p) -> Printf.sprintf "frame %d %d %d %s" (int_of_n (control_to h.h_control))
-                         (int_of_n (address_value h.h_dest)) (int_of_n (address_value h.h_src)) (hex p)
-    | OErr e -> stopped := true; "err " ^ rerr_text e
-    | OOverflow -> stopped := true; "overflow"
-    | OStall -> stopped := true; "model-out-of-fuel") obs in
-  if !stopped then lines @ ["end"] else lines @ ["end"]
-
-(* --concretize: replace every "stream <hex> <size>..." op of a link-type script by the feed ops
-   the model's buffer geometry allows (each read at most the writable space) *)
-let concretize_script (s : script) : unit =
-  print_string (String.concat " " (["S"; s.id; s.engine] @ List.map (fun (k, v) -> k ^ "=" ^ v) s.cfg) ^ "\n");
-  (match s.ops with
-   | [("stream" :: h :: sizes)] ->
-     let feeds = concretize_link (error_mode s) (read_mode s) (nat_of_int (cfg_int s "frag" 2048))
-         (unhex h) (List.map (fun x -> nat_of_int (int_of_string x)) sizes) in
-     List.iter (fun c -> print_string ("feed " ^ hex c ^ "\n")) feeds
-   | ops -> List.iter (fun op -> print_string (String.concat " " op ^ "\n")) ops);
-  print_string "E\n"
-
-let () =
-  if Sys.argv.(1) = "--concretize" then begin
-    List.iter concretize_script (read_scripts Sys.argv.(2)); exit 0
-  end;
-  let path = Sys.argv.(1) in
-  let scripts = read_scripts path in
-  List.iter (fun s ->
-    let lines = try (match s.engine with
-      | "link" -> run_link_engine s
-      | e -> ["unknown-engine " ^ e])
-      with Failure m -> ["model-failure " ^ (String.map (fun c -> if c = ' ' then '_' else c) m)] in
-    print_string ("T " ^ s.id ^ "\n");
-    List.iter (fun l -> print_string l; print_char '\n') lines;
-    print_string "E\n") scripts
+(* engines register themselves here: name -> script -> observation lines *)
+let engines : (string, script -> string list) Hashtbl.t = Hashtbl.create 16
+let concretizers : (string, script -> string list) Hashtbl.t = Hashtbl.create 16
+let register name f = Hashtbl.replace engines name f
+let register_concretizer name f = Hashtbl.replace concretizers name f
